@@ -7,7 +7,11 @@ import (
 	"os/exec"
 	"path/filepath"
 	"regexp"
+	"runtime"
+	"strconv"
 	"strings"
+	"sync"
+	"sync/atomic"
 
 	"github.com/tormoder/fit"
 
@@ -39,22 +43,34 @@ func registerC20() {
 		Level: "exploration",
 		Rule: "the constant table is generated at check time from the types.go of the tree under test (go/parser) and compiled into the checker; a case is one (type, value): " +
 			"every constant of every generated type, every remaining value of 8- and 16-bit types, and for 32-bit types all neighbours of constants plus 200000 PRNG values; " +
-			"non-trivial: String() was called and compared (named value: one of the names without the type prefix; other value: Type(n)); plus regeneration of types_string.go with the repository's own stringer (verif-tagged fitgen) compared byte for byte",
+			"before any sequential use in the worker process, 8 goroutines make the process's first String() calls of each type at the same moment; non-trivial: String() was called and compared (named value: one of the names without the type prefix; other value: Type(n)); plus regeneration of types_string.go with the repository's own stringer (verif-tagged fitgen) compared byte for byte",
 		Assume:        []string{"Bool (hand-written in types_man.go, prints prefixed names by design) is reported separately and not judged by the generated-type rule"},
 		MinNontrivial: 100000,
-		Shards:        1,
-		Main:          c20Main,
-		Exhaustive:    func(string) bool { return true },
+		WorkerProcs:   4,
+		Families: []lib.Family{
+			{Name: "types", N: func(string) uint64 { return uint64(len(c20Types)) }, Run: c20OneType},
+		},
+		Main:       c20Main,
+		Exhaustive: func(string) bool { return true },
 	})
 }
 
-func c20Main(c *lib.Ctx) {
-	if len(c20Types) == 0 {
-		c.Inconclusive("the constant table was not generated (build without the c20table tag): run through ./run C20")
+// c20OneType checks one type in a worker process: first a storm of goroutines that all make the
+// process's FIRST String() calls for this type at the same moment (lazily built tables must be safe
+// to use from several goroutines; a fatal "concurrent map" error kills the worker and is reported
+// as a violation by the parent), then every value sequentially.
+func c20OneType(c *lib.Ctx, idx uint64) {
+	t := c20Types[idx]
+	c.SetInflight([]byte("first-use storm on type " + t.Name))
+	bad, msg := c20Storm(t, 8)
+	c.EvalN(int64(8 * len(t.Consts)))
+	if bad > 0 {
+		c.Violation(nil, "%s (%d wrong results from 8 goroutines)", msg, bad)
 		return
 	}
+	c.Count("first_use_storms", 1)
 	nconst := 0
-	for _, t := range c20Types {
+	for _, t := range []c20Type{t} {
 		names := map[uint64][]string{}
 		for _, k := range t.Consts {
 			nconst++
@@ -135,11 +151,24 @@ func c20Main(c *lib.Ctx) {
 		}
 		c.Count(fmt.Sprintf("types_%dbit", t.Bits), 1)
 	}
+	_ = nconst
+}
+
+func c20Main(c *lib.Ctx) {
+	if len(c20Types) == 0 {
+		c.Inconclusive("the constant table was not generated (build without the c20table tag): run through ./run C20")
+		return
+	}
+	nconst := 0
+	for _, t := range c20Types {
+		nconst += len(t.Consts)
+	}
 	c.Count("constants", int64(nconst))
-	c.Count("types", int64(len(c20Types)))
+	c.Count("types_in_table", int64(len(c20Types)))
 	// Bool, reported separately.
 	c.Res.Extra["bool_strings"] = map[string]string{"0": fit.Bool(0).String(), "1": fit.Bool(1).String(), "255": fit.Bool(255).String(), "7": fit.Bool(7).String()}
 	c.Sample("constant", 1, map[string]interface{}{"type": c20Types[0].Name, "const": c20Types[0].Consts[0].Name, "value": c20Types[0].Consts[0].Value, "string": c20Types[0].Str(c20Types[0].Consts[0].Value)})
+	c20Storms(c)
 	c20Tables(c)
 }
 
@@ -210,4 +239,108 @@ func tail(b []byte, n int) string {
 		b = b[len(b)-n:]
 	}
 	return string(b)
+}
+
+// c20Storm lets g goroutines make the first String() calls of type t in this process at the same
+// moment (spin barrier) and compares every result.
+func c20Storm(t c20Type, g int) (int, string) {
+	names := map[uint64][]string{}
+	for _, k := range t.Consts {
+		names[k.Value] = append(names[k.Value], strings.TrimPrefix(k.Name, t.Name))
+	}
+	var wg sync.WaitGroup
+	var ready, goFlag, bad int32
+	var firstBad atomic.Value
+	firstBad.Store("")
+	for i := 0; i < g; i++ {
+		wg.Add(1)
+		go func(i int) {
+			defer wg.Done()
+			rng := lib.NewRand("C20.storm."+t.Name, uint64(i))
+			order := rng.Perm(len(t.Consts))
+			atomic.AddInt32(&ready, 1)
+			for atomic.LoadInt32(&goFlag) == 0 {
+			}
+			for _, k := range order {
+				v := t.Consts[k].Value
+				got := t.Str(v)
+				ok := false
+				for _, n := range names[v] {
+					if got == n {
+						ok = true
+					}
+				}
+				if !ok {
+					atomic.AddInt32(&bad, 1)
+					firstBad.Store(fmt.Sprintf("%s(%d).String() = %q under concurrent first use, want one of %q", t.Name, v, got, names[v]))
+				}
+			}
+		}(i)
+	}
+	for atomic.LoadInt32(&ready) < int32(g) {
+		runtime.Gosched()
+	}
+	atomic.StoreInt32(&goFlag, 1)
+	wg.Wait()
+	return int(bad), firstBad.Load().(string)
+}
+
+// C20Sub: "storm <type index>": one fresh process whose very first String() calls of the type come
+// from 12 goroutines at once. Prints OK or BAD <message>; a fatal runtime error kills it.
+func C20Sub(args []string) int {
+	if len(args) < 2 || args[0] != "storm" {
+		return 2
+	}
+	idx, _ := strconv.Atoi(args[1])
+	if idx < 0 || idx >= len(c20Types) {
+		fmt.Println("BAD no such type")
+		return 0
+	}
+	bad, msg := c20Storm(c20Types[idx], 12)
+	if bad > 0 {
+		fmt.Printf("BAD %s (%d wrong results)\n", msg, bad)
+		return 0
+	}
+	fmt.Println("OK")
+	return 0
+}
+
+// c20Storms runs the first-use storm of every type in fresh processes.
+func c20Storms(c *lib.Ctx) {
+	self, _ := os.Executable()
+	reps := int(tierN(c.Tier, 2, 12))
+	type job struct{ ti, rep int }
+	var mu sync.Mutex
+	var wg sync.WaitGroup
+	sem := make(chan struct{}, 8)
+	for ti := range c20Types {
+		r := reps
+		if len(c20Types[ti].Consts) >= 100 {
+			r = reps * 4 // big tables are the ones built lazily or as maps
+		}
+		for k := 0; k < r; k++ {
+			wg.Add(1)
+			sem <- struct{}{}
+			go func(ti int) {
+				defer wg.Done()
+				defer func() { <-sem }()
+				cmd := exec.Command(self, "c20", "storm", strconv.Itoa(ti))
+				cmd.Env = append(os.Environ(), "GOMAXPROCS=8")
+				out, err := cmd.CombinedOutput()
+				mu.Lock()
+				defer mu.Unlock()
+				c.Eval()
+				s := strings.TrimSpace(string(out))
+				switch {
+				case err != nil || !(s == "OK" || strings.HasPrefix(s, "BAD")):
+					c.Violation([]byte(c20Types[ti].Name), "a process whose first %s.String() calls come from 12 goroutines at once died: %v: %s", c20Types[ti].Name, err, tail(out, 300))
+				case strings.HasPrefix(s, "BAD"):
+					c.Violation([]byte(c20Types[ti].Name), "%s", strings.TrimPrefix(s, "BAD "))
+				default:
+					c.Count("fresh_process_first_use_storms", 1)
+				}
+			}(ti)
+		}
+	}
+	wg.Wait()
 }
